@@ -119,6 +119,7 @@ type c09Fn struct {
 	Head string // text used in the operator position
 	Kind string // "", macro, function, generic-function …
 	Doc  int    // number of documented parameters
+	Max  int    // documented maximum number of arguments, -1 = no maximum (&rest, &body, &key)
 	skip func(i int) bool
 }
 
@@ -139,6 +140,17 @@ func c09Functions() (fns []*c09Fn, denied []string) {
 			if fi.Doc != nil {
 				f.Kind = string(fi.Doc.Kind)
 				f.Doc = len(fi.Doc.Args)
+				for _, da := range fi.Doc.Args {
+					switch {
+					case da.Name == slip.AmpRest || da.Name == slip.AmpBody || da.Name == slip.AmpKey || da.Name == slip.AmpAllowOtherKeys:
+						f.Max = -1
+					case strings.HasPrefix(da.Name, "&"):
+					case f.Max >= 0:
+						f.Max++
+					}
+				}
+			} else {
+				f.Max = -1
 			}
 			if why, no := c09Deny[f.Key()]; no {
 				denied = append(denied, f.Key()+": "+why)
@@ -179,6 +191,26 @@ func c09Functions() (fns []*c09Fn, denied []string) {
 	}
 	sort.Strings(denied)
 	return
+}
+
+// c09Reduced: the pool objects used for the fixed table of 3-tuples (indices into c09Pool).
+var c09Reduced = c09PoolIndex("nil", "1", "-1", "\"a\"", "sym", ":a", "#\\a", "(1 2 3)", "#(1 2 3)", "lambda")
+
+func c09PoolIndex(names ...string) []int {
+	var out []int
+	for _, n := range names {
+		found := false
+		for i, o := range c09Pool {
+			if o.Name == n {
+				out = append(out, i)
+				found = true
+			}
+		}
+		if !found {
+			panic("c09: no pool object named " + n)
+		}
+	}
+	return out
 }
 
 func c09Find(name string) (fi *slip.FuncInfo) {
